@@ -83,9 +83,11 @@ def _once_and_nodes(run, ci, nd):
     init = ci.methods.get('__init__')
     lins = [c for c in ast.walk(init) if isinstance(c, ast.Call) and dotted(c.func) in ('linspace', 'np.linspace') and len(c.args) >= 3] if init else []
     tests = ' ; '.join(norm(i.test) for i in ast.walk(init) if isinstance(i, ast.If)) if init else ''
+    from ..inline import resolver
+    res_init = resolver(init) if init is not None else None
     for c in lins:
         run.subject('C14-R5')
-        cnt = c.args[2]
+        cnt = res_init(c.args[2]) if res_init is not None else c.args[2]
         mx = [m for m in ast.walk(cnt) if isinstance(m, ast.Call) and dotted(m.func) == 'max' and any(
             isinstance(a, ast.Constant) and isinstance(a.value, int) and a.value >= 2 for a in m.args)]
         if mx and mx[0] is cnt:
@@ -179,16 +181,29 @@ def _one(run, ci, nd):
                      nd, [norm(a) for a in call[0].args] if call else None, [lv[2] for lv in loopvars], want_args))
     run.subject('C14-R2')
     dstore = [s for s in ast.walk(blk[0]) if isinstance(s, ast.Assign) and norm(s.targets[0]).startswith('self.data_view[')]
-    den = [s for s in body if isinstance(s, ast.Assign) and norm(s.targets[0]) == 'coeffs_view[0]']
+    # constant term: + data_min, written as an assignment or as an augmented assignment
+    added = None
+    for s_ in body:
+        if isinstance(s_, ast.Assign) and norm(s_.targets[0]) == 'coeffs_view[0]':
+            added = SymEval().ev(s_.value) - L('coeffs_view[0]')
+        elif isinstance(s_, ast.AugAssign) and norm(s_.target) == 'coeffs_view[0]' and isinstance(s_.op, ast.Add):
+            added = SymEval().ev(s_.value)
     scale = [s for s in ast.walk(blk[0]) if isinstance(s, ast.Assign) and norm(s.targets[0]).startswith('coeffs_view[') and norm(s.value).startswith('self.data_delta * ')]
     idx = ', '.join(lv[1] for lv in loopvars)
-    if dstore and norm(dstore[0].value) == '(value - self.data_min) * self.data_delta_inv' and norm(dstore[0].targets[0]) == 'self.data_view[%s]' % idx \
-            and den and norm(den[0].value) == 'coeffs_view[0] + self.data_min' and scale:
+    stored = SymEval().ev(dstore[0].value) if dstore else None
+    if stored is not None and added is None and 'self.data_min' in stored.leaves():
+        run.fail('C14-R2', K + '_evaluate|normalisation', path, blk[0].lineno,
+                 'Caching%dD subtracts data_min from the samples it stores but never adds it back to the constant coefficient: cached values are '
+                 'shifted by the lower function boundary' % nd)
+    elif stored is None or added is None or not scale:
+        run.undecided('C14-R2', 'Caching%dD normalisation' % nd, 'store of the normalised sample / de-normalisation of the coefficients not recognised')
+    elif stored.eq((L('value') - L('self.data_min')) * L('self.data_delta_inv')) and norm(dstore[0].targets[0]) == 'self.data_view[%s]' % idx \
+            and added.eq(L('self.data_min')):
         run.ok('C14-R2', 'Caching%dD normalisation' % nd, 'stored (v - min) / delta; coefficients * delta, constant term + min')
     else:
         run.fail('C14-R2', K + '_evaluate|normalisation', path, blk[0].lineno,
-                 'Caching%dD stores %s and de-normalises with %s / %s: value normalisation is not undone consistently' % (
-                     nd, norm(dstore[0]) if dstore else None, norm(scale[0].value)[:40] if scale else None, norm(den[0].value) if den else None))
+                 'Caching%dD stores %s and de-normalises with %s, constant term + %s: value normalisation is not undone consistently' % (
+                     nd, stored.key()[:80], norm(scale[0].value)[:40], added.key()[:40]))
     # ---------------- R3 out-of-range policy
     run.subject('C14-R3')
     pc = [a.arg for a in ev.args.args[1:1 + nd]]
